@@ -16,7 +16,7 @@ use vpmodel::spec::{BlockSpec, ChainSpec, InSpec, OutSpec, Src, TxSpec};
 pub const C07: PropDef = PropDef {
     id: "C07",
     level: "exploration",
-    rule: "part 'small-histories' (bounded-exhaustive): every history of <=2 non-coinbase transactions over <=2 blocks, each with 1..2 inputs drawn from all outputs created so far (same block included, the same output twice, an outpoint unknown to the range), or being a verbatim duplicate of an earlier transaction (identical txid, also inside one block, also after its outputs were spent), and outputs that do or do not carry an address (quick: one output per tx; thorough: 1..2 outputs per tx, plus all 3-transaction single-block histories), with and without --start 1; part 'random-histories': chains up to 25 blocks and hundreds of transactions with fan-in/fan-out, same-block spends, unknown outpoints, zero values, duplicate coinbases (identical txid), transactions with >255 outputs whose high indices are spent, on all 8 coins with random ranges; part 'large-utxo-set': two histories whose final UTXO set has 70 000 / 131 500 rows. Oracle: unspent-S-E.csv = header once + exactly the row set of the reference UTXO map (remove inputs, then insert address-bearing outputs, per tx in block order; same outpoint replaces), no duplicates. Non-trivial = at least one in-range spend of an in-range output and at least one address-less output; distinct by history hash.",
+    rule: "part 'small-histories' (bounded-exhaustive): every history of <=2 non-coinbase transactions over <=2 blocks, each with 1..2 inputs drawn from all outputs created so far (same block included, the same output twice, an outpoint unknown to the range), or being a verbatim duplicate of an earlier transaction (identical txid, also inside one block, also after its outputs were spent), and outputs that do or do not carry an address (quick: one output per tx; thorough: 1..2 outputs per tx, plus all 3-transaction single-block histories), with and without --start 1; part 'random-histories': chains up to 25 blocks and hundreds of transactions with fan-in/fan-out, same-block spends, unknown outpoints, zero values, duplicate coinbases (identical txid), transactions with >255 outputs whose high indices are spent, on all 8 coins with random ranges; part 'large-utxo-set': two histories whose final UTXO set has 70 000 / 131 500 rows and one with a single transaction of 66 000 outputs (indices beyond 16 bits). Oracle: unspent-S-E.csv = header once + exactly the row set of the reference UTXO map (remove inputs, then insert address-bearing outputs, per tx in block order; same outpoint replaces), no duplicates. Non-trivial = at least one in-range spend of an in-range output and at least one address-less output; distinct by history hash.",
     assumptions: &["row order is unspecified (hash-map order): rows are compared as a set"],
     run: run_c07,
     replay: replay_c07,
@@ -219,6 +219,9 @@ pub fn large_cases() -> Vec<Case> {
         let chain = vpmodel::spec::chain_from_scripts(coin, &scripts, &values, 250, 40, 0, 1_400_000_000);
         v.push(Case { chain, start_sel: None, end_sel: None });
     }
+    // one transaction with 66 000 outputs: output indices beyond 16 bits
+    let scripts: Vec<Vec<u8>> = (0..66_400usize).map(|i| pool_script(Coin::Dogecoin, (i % 11) as u8, ((i / 11) % 5) as u8)).collect();
+    v.push(Case { chain: vpmodel::spec::chain_from_scripts(Coin::Dogecoin, &scripts, &[5, 7, 11_000], 66_000, 3, 0, 1_400_000_000), start_sel: None, end_sel: None });
     v
 }
 
